@@ -159,6 +159,19 @@ Definition div255 (v : Z) : Z := Z.shiftr (v + 255) 8.
 Definition scale_u8 (c m : Z) : Z := div255 (c * m).                 (* apply_mask: DestinationIn with coverage m *)
 Definition over_u8 (s sa d : Z) : Z := s + div255 (d * (255 - sa)).  (* SourceOver of (s, sa) onto d *)
 
+(* ------------------------------------------------------------------ identity primitives: early returns
+   apply_offset / apply_blur return the very input image when the scaled offset / deviation is zero
+   (guards and scale_coordinates are source-derived); `shifted` / `blurred` stand for whatever the
+   non-trivial path would compute. *)
+Definition apply_offset_model {I : Type} (dx dy sx sy : f32) (input shifted : I) : I :=
+  let '(x, y) := scale_coordinates dx dy sx sy in if offset_returns_input x y then input else shifted.
+Definition apply_blur_model {I : Type} (std_dx std_dy sx sy : f32) (input blurred : I) : I :=
+  let '(x, y) := scale_coordinates std_dx std_dy sx sy in if blur_returns_input x y then input else blurred.
+(* feMerge / apply_to_canvas: SourceOver of one premultiplied pixel onto a fresh transparent pixmap *)
+Definition merge_single (p : px) : px :=
+  {| pr := over_u8 (pr p) (pa p) 0; pg := over_u8 (pg p) (pa p) 0;
+     pb := over_u8 (pb p) (pa p) 0; pa := over_u8 (pa p) (pa p) 0 |}.
+
 (* ------------------------------------------------------------------ helpers for exhaustive tables *)
 Definition pair_table (f : Z -> Z -> Z) : list Z :=
   flat_map (fun a => map (fun c => f c a) bytes) bytes.        (* index = a * 256 + c *)
